@@ -925,6 +925,20 @@ func ruleAgree(c *Ctx) {
 		okR := false
 		for _, cl := range c.NewRegion(f, 3, inSvc).Calls() {
 			if eng.CalleeName(cl.Common()) == "crypto/rand.Read" {
+				// the random bytes are produced for this call: read straight into (a part of) the salt being filled, or into
+				// a buffer of this call — not into storage that outlives the call (a pool hands the same bytes out again)
+				perCall, bad := p.AllFrom(eng.Arg(cl.Common(), 0), eng.OriginOpts{ThroughSlice: true, ThroughConvert: true, Interproc: true}, func(v ssa.Value) bool {
+					switch x := v.(type) {
+					case *ssa.Parameter:
+						return eng.Root(x.Parent()) == f
+					case *ssa.Alloc:
+						return true
+					case *ssa.MakeSlice:
+						return true
+					}
+					return false
+				})
+				c.CheckAt("AGREE", short(f)+":random-bytes-drawn-per-call", cl, perCall, "crypto/rand fills storage that outlives the GetSalt call ("+valsStr(p, bad)+"): salts are then cut from a buffer, and a buffer that is re-read without being refilled issues the same salt twice")
 				okR = true
 			}
 			if strings.HasPrefix(eng.CalleeName(cl.Common()), "math/rand") {
